@@ -285,9 +285,12 @@ def run_load(ctx, cases):
                 "tree": e, "implementation": a[:40], "model": b[:40], "harness_cmd": harness_cmd("json", ln)[:6000]}
         if a[0] == 2:
             ty2, cls = classify_panic(doc)
-            key = ("from_json", ty2, cls)
-            what = ("from_json ABORTS (Rust panic, a PanicException in Python) instead of returning an error on the document %s"
-                    % J.show(doc, 400))
+            site = panic_site("json", ln)
+            key = ("from_json", ty2, cls + (" at " + site[0] if site else ""))
+            what = ("from_json ABORTS (Rust panic%s, a PanicException in Python) instead of returning an error on the document %s"
+                    % (" at %s:%d: %s" % site if site else "", J.show(doc, 400)))
+            if site:
+                base["panic_file"], base["panic_line"], base["panic_msg"] = site
         elif a[0] == 0 and not shape_ok(a[1], a[3:3 + a[2]]):
             key = ("from_json", J.KINDS[a[1]], "shape-invariant")
             what = ("from_json returns Ok(%s) with stored shapes %s that violate the type's invariant, for the document %s"
@@ -334,15 +337,20 @@ def run_ctors(ctx, cases):
             key = (ent, "model-mismatch")
             what = "%s: implementation and model disagree: implementation %s, model %s; input `%s`" % (label, a[:12], b[:12], line[:300])
         elif a[0] == 2 and not ctor_out_of_range(label, mc):
-            key = (ent, "abort")
-            what = "%s ABORTS (Rust panic) instead of returning a value or an error: %s" % (label, pretty_ctor(label, mc, line))
+            site = panic_site("json", line)
+            key = (ent, "abort", site[0] if site else "?", site[2] if site else "?")
+            what = "%s ABORTS (Rust panic%s) instead of returning a value or an error: %s" % (
+                label, " at %s:%d: %s" % site if site else "", pretty_ctor(label, mc, line))
             rp["call"] = pretty_ctor(label, mc, line)
+            rp["model_outcome"] = "abort"
+            if site:
+                rp["panic_file"], rp["panic_line"], rp["panic_msg"] = site
         else:
             continue
         rp["class"] = key[1]
         if key not in groups or len(mc) < groups[key][0]:
             groups[key] = (len(mc), what, rp)
-        ctx.count("ctor finding: %s/%s" % key)
+        ctx.count("ctor finding: %s" % "/".join(key))
     for key in sorted(groups):
         _, what, rp = groups[key]
         ctx.violation(what, rp)
